@@ -174,7 +174,9 @@ PredsMore ==
     <<Fn1("not", Rel(<<Ch("c")>>))>>, <<Bin("=", Rel(<<Self>>), StrL("12"))>>,
     <<Bin("=", Fn1("count", Rel(<<Ch("b")>>)), NumL(1))>>, <<NumH(3)>>,
     <<Rel(<<Ch("b")>>), NumL(1)>>, <<NumL(2), NumL(1)>>, <<Bin("=", Bin("mod", Fn0("position"), NumL(2)), NumL(1))>>,
-    <<Bin("=", Rel(<<AtS("x")>>), NumL(2))>>, <<Bin(">", Rel(<<Self>>), NumL(1))>> }
+    <<Bin("=", Rel(<<AtS("x")>>), NumL(2))>>, <<Bin(">", Rel(<<Self>>), NumL(1))>>,
+    \* predicates whose value is a COMPUTED number (no literal, no position()/last()): still positional
+    <<Fn1("count", Rel(<<Ch("c")>>))>>, <<Fn1("number", Rel(<<AtS("x")>>))>>, <<Bin("+", Fn1("count", Rel(<<Ch("b")>>)), NumL(1))>> }
 Preds == IF Tier = "tiny" THEN PredsSmall ELSE PredsSmall \cup PredsMore
 
 StepsFull == { Step(ax, t, p) : ax \in UsedAxes, t \in Tests, p \in Preds }
